@@ -120,4 +120,5 @@ MUTANTS = [
     # ---- LEX extents
     M('lex:line_comment:stops-at-space', 'lex', ['C15', 'C14'], "Cursor<'_>::line_comment", "{ c != '\\n' });", "{ c != '\\n' && c != ' ' });"),
     M('lex:eat_identifier:start-test-inverted', 'lex', ['C15'], "Cursor<'_>::eat_identifier", 'if !is_id_start(self.first()) {', 'if is_id_start(self.first()) {'),
+    M('parser:source_file:stops-at-semicolon', 'parser', ['C02'], 'source_file_contents', 'while !(p.at(EOF) || (p.at(T![\'}\']) && stop_on_r_curly)) {', 'while !(p.at(EOF) || p.at(T![;]) || (p.at(T![\'}\']) && stop_on_r_curly)) {'),
 ]
